@@ -1,6 +1,587 @@
-//! C01 — not built yet.
-use mcx::{Ctx, Value};
-pub fn run(_ctx: &Ctx, _replay: Option<&Value>) -> i32 {
-    eprintln!("C01: check not built yet");
-    2
+//! C01 — every successful execution is provable and its proof verifies.
+//!
+//! Space (E): a fixed program family `pcore` (every instruction class, every control-flow shape,
+//! stack-input depths 0/16/17/20, outputs of depth 16 and > 16, and trace-length regimes in which
+//! the main trace, the range-checker table or the chiplets decide the padded length, with the
+//! deciding component placed at and around 2^6 and 2^7) x the standard option sets.
+//! Oracle per (program, option set): `execute` succeeds (family requirement) => `prove` succeeds
+//! without panicking; the outputs returned by `prove` equal those of `execute`; `verify` with exactly
+//! (ProgramInfo::new(hash, kernel), inputs, outputs) returns Ok(level), level >= the configured one;
+//! `to_bytes` -> `from_bytes` gives back an equal proof with the same `security_level()`, which
+//! verifies with the same result.
+
+use crate::common::*;
+use mcx::{guard, json, Ctx, Tier, Value};
+use miden::{prove, verify, ExecutionProof, ProgramInfo, ProvingOptions};
+use processor::{AdviceInputs, ExecutionOptions};
+use rayon::prelude::*;
+use std::collections::{BTreeMap, BTreeSet};
+use vm_core::{
+    crypto::merkle::{MerkleStore, MerkleTree},
+    Felt, StarkField, Word,
+};
+
+/// One member of the program family. `stack` is given top first; `advice` is the advice stack
+/// (first element is read first). Programs whose name starts with "mtree" additionally get the
+/// fixed Merkle store of `merkle_tree()`.
+#[derive(Clone, Debug)]
+pub struct ProgCase {
+    pub name: String,
+    pub src: String,
+    pub kernel: Option<String>,
+    pub stack: Vec<u64>,
+    pub advice: Vec<u64>,
+}
+
+fn pc(name: &str, src: &str, stack: &[u64], advice: &[u64]) -> ProgCase {
+    ProgCase { name: name.into(), src: src.into(), kernel: None, stack: stack.to_vec(), advice: advice.to_vec() }
+}
+
+const KERNEL: &str = "export.kadd add end\nexport.kcaller caller add add add add end\nexport.kmem push.3 mem_store.1 mem_load.1 add end";
+
+fn merkle_leaves() -> Vec<Word> {
+    (1..=8u64).map(|i| [Felt::new(i), Felt::new(i * 10), Felt::new(i * 100), Felt::new(i * 1000)]).collect()
+}
+
+fn merkle_tree() -> MerkleTree {
+    MerkleTree::new(merkle_leaves()).expect("harness: merkle tree")
+}
+
+pub fn advice_inputs(c: &ProgCase) -> AdviceInputs {
+    let mut a = AdviceInputs::default().with_stack(felts(&c.advice));
+    if c.name.starts_with("mtree") {
+        a = a.with_merkle_store(MerkleStore::from(&merkle_tree()));
+    }
+    a
+}
+
+fn compile(c: &ProgCase) -> miden::Program {
+    let asm = match &c.kernel {
+        Some(k) => assembler_with_kernel(k),
+        None => assembler(),
+    };
+    asm.compile(&c.src).unwrap_or_else(|e| panic!("harness: family program {} must assemble: {e}\n{}", c.name, c.src))
+}
+
+/// (main, range, chiplets) lengths of an execution, or the error
+fn lens(c: &ProgCase) -> Result<(usize, usize, usize), String> {
+    lens_with(&compile(c), c)
+}
+
+fn lens_with(p: &miden::Program, c: &ProgCase) -> Result<(usize, usize, usize), String> {
+    match exec_trace(p, &c.stack, advice_inputs(c), ExecutionOptions::default()) {
+        Err(pn) => Err(format!("panic: {pn}")),
+        Ok(Err(e)) => Err(format!("{e:?}")),
+        Ok(Ok(t)) => {
+            let s = t.trace_len_summary();
+            Ok((s.main_trace_len(), s.range_trace_len(), s.chiplets_trace_len().trace_len()))
+        }
+    }
+}
+
+/// spread 32-bit values: limbs far apart so that the range-checker table needs many bridging rows
+fn spread(i: u64) -> u64 {
+    (i.wrapping_mul(2654435761) ^ (i << 17) ^ 0x5bd1_e995) & 0xffff_ffff
+}
+
+/// the three parametrised families of the trace-shape regimes
+fn regime_prog(comp: usize, n: usize, m: usize) -> ProgCase {
+    match comp {
+        // main-dominated: n single-cycle operations in one span (+ m more)
+        0 => pc(&format!("regime_main_n{n}_m{m}"), &format!("begin repeat.{n} swap end {} end", "neg ".repeat(m)), &[3, 4], &[]),
+        // range-checker dominated: u32 range checks on n distinct spread values
+        1 => {
+            let mut s = String::from("begin ");
+            for i in 0..n {
+                s += &format!("push.{} u32assert drop ", spread(i as u64 + 1));
+            }
+            for i in 0..m {
+                s += &format!("push.{} u32assert drop ", i + 1);
+            }
+            s += "end";
+            pc(&format!("regime_range_n{n}_m{m}"), &s, &[], &[])
+        }
+        // chiplet-dominated: n permutations (8 hasher rows each) + m memory rows
+        _ => pc(
+            &format!("regime_chiplets_n{n}_m{m}"),
+            &format!("begin repeat.{n} hperm end {} end", "dup mem_store.0 ".repeat(m)),
+            &[1, 2, 3, 4, 5, 6, 7, 8, 9, 10, 11, 12],
+            &[],
+        ),
+    }
+}
+
+/// finds the member of family `comp` whose deciding component has exactly `target` rows and
+/// strictly dominates the two other components (deterministic search, smallest (m, n) first)
+fn find_regime(comp: usize, target: usize) -> Option<ProgCase> {
+    let asm = assembler();
+    let (max_m, max_n) = [(8usize, 260usize), (40, 30), (8, 40)][comp];
+    for m in 0..=max_m {
+        for n in 1..=max_n {
+            let c = regime_prog(comp, n, m);
+            let p = asm.compile(&c.src).unwrap_or_else(|e| panic!("harness: regime program {} must assemble: {e}", c.name));
+            let which = ["main", "range", "chiplets"][comp];
+            let l = match lens_with(&p, &c) {
+                Ok(l) => l,
+                // the VM cannot even build the trace of this member: it becomes the case for this
+                // target, and check_one reports it (trace_build_panic) instead of the search hiding it
+                Err(e) if e.starts_with("panic:") => return Some(ProgCase { name: format!("regime_{which}_{target}"), ..c }),
+                Err(e) => panic!("harness: regime program {} must execute: {e}", c.name),
+            };
+            let v = [l.0, l.1, l.2];
+            if v[comp] == target && (0..3).all(|k| k == comp || v[k] < target) {
+                return Some(ProgCase { name: format!("regime_{which}_{target}"), ..c });
+            }
+            if comp != 1 && v[comp] > target {
+                break; // these two families grow monotonically with n
+            }
+        }
+    }
+    None
+}
+
+/// The core program family. The interface (name, src, kernel, stack top first, advice) is shared
+/// with other checks.
+pub fn pcore(_tier: Tier) -> Vec<ProgCase> {
+    let mut v: Vec<ProgCase> = vec![];
+    let s16: Vec<u64> = (1..=16).collect();
+    let s17: Vec<u64> = (1..=17).collect();
+    let s20: Vec<u64> = (1..=20).collect();
+
+    // ---- instruction classes ---------------------------------------------------------------------
+    v.push(pc("field_arith", "begin add mul push.7 sub neg inv push.3 div add.5 mul.2 sub.1 div.4 end", &[3, 4, 5], &[]));
+    v.push(pc(
+        "field_bool_cmp",
+        "begin push.1 push.0 and push.1 or not push.1 xor push.5 push.9 lt add push.5 push.9 gt add push.3 push.3 lte add \
+         push.4 push.2 gte add push.6 eq.6 add push.2 neq.3 add push.7 is_odd add push.3 push.3 eq add push.2 push.3 neq add end",
+        &[],
+        &[],
+    ));
+    v.push(pc(
+        "field_pow_assert",
+        "begin push.10 pow2 push.1024 ilog2 add push.3 push.5 exp add push.2 exp.7 add push.1 assert push.0 assertz push.4 push.4 assert_eq \
+         padw padw assert_eqw padw padw eqw movdn.8 dropw dropw end",
+        &[],
+        &[],
+    ));
+    v.push(pc("ext2", "begin ext2add ext2mul ext2sub ext2neg ext2inv push.3 push.4 ext2div end", &[1, 2, 3, 4, 5, 6, 7, 8, 9, 10], &[]));
+    v.push(pc(
+        "u32_arith",
+        "begin u32overflowing_add drop u32wrapping_add push.5 u32overflowing_sub drop push.100 u32wrapping_sub push.7 u32overflowing_mul drop \
+         push.9 u32wrapping_mul push.3 push.4 u32overflowing_madd drop push.1 push.2 u32wrapping_madd push.5 push.6 u32overflowing_add3 drop \
+         push.1 push.1 u32wrapping_add3 end",
+        &[4000000000, 500000000, 30, 40],
+        &[],
+    ));
+    v.push(pc(
+        "u32_div",
+        "begin push.1000003 push.7 u32div push.13 u32mod push.500 push.7 u32divmod add push.4000000000 u32div.17 u32mod.5 add push.77 u32divmod.10 \
+         push.4294967295 push.65536 u32div push.4294967295 push.4294967295 u32divmod end",
+        &[],
+        &[],
+    ));
+    v.push(pc(
+        "u32_bitwise",
+        "begin push.4042322160 push.252645135 u32and push.305419896 u32or push.2863311530 u32xor u32not push.3 u32shl push.5 u32shr push.7 u32rotl \
+         push.9 u32rotr u32popcnt push.1 u32clz push.8 u32ctz push.4026531840 u32clo push.15 u32cto u32shl.4 u32shr.2 u32rotl.31 u32rotr.1 end",
+        &[],
+        &[],
+    ));
+    v.push(pc(
+        "u32_cmp_conv",
+        "begin push.5 push.9 u32lt push.5 push.9 u32lte push.5 push.9 u32gt push.5 push.9 u32gte push.5 push.9 u32min push.5 push.9 u32max \
+         push.18446744069414584320 u32split push.5 u32test drop push.1.2.3.4 u32testw drop u32assertw dropw push.5 u32assert push.6 u32assert2 \
+         push.8589934597 u32cast end",
+        &[],
+        &[],
+    ));
+    v.push(pc(
+        "stack_manip",
+        "begin dup.3 dup.15 swap.5 movup.7 movdn.9 swapw.2 swapdw movupw.3 movdnw.2 dupw.1 dropw padw dropw drop drop push.1 cswap push.0 cswapw \
+         push.1 cdrop push.0 cdropw dup.0 dup.7 swap swap.15 swapw swapw.3 movup.2 movup.15 movdn.2 movdn.15 movupw.2 movdnw.3 dupw.0 dupw.3 dropw dropw end",
+        &s16,
+        &[],
+    ));
+    v.push(pc(
+        "mem_elem_word",
+        "begin push.11 mem_store.3 mem_load.3 push.1.2.3.4 mem_storew.7 dropw padw mem_loadw.7 push.40 mem_load push.9 push.41 mem_store padw push.7 \
+         mem_loadw push.5.6.7.8 push.100 mem_storew push.4294967295 mem_load end",
+        &[],
+        &[],
+    ));
+    v.push(pc(
+        "mem_stream",
+        "begin push.1.2.3.4 mem_storew.0 dropw push.5.6.7.8 mem_storew.1 dropw push.0 padw padw padw mem_stream hperm end",
+        &[],
+        &[],
+    ));
+    v.push(pc("adv_push_loadw", "begin adv_push.3 padw adv_loadw adv_push.1 end", &[], &[1, 2, 3, 4, 5, 6, 7, 8]));
+    v.push(pc("adv_pipe", "begin push.12.11.10.9.8.7.6.5.4.3.2.1 adv_pipe hperm adv_pipe end", &[], &(1..=16).collect::<Vec<u64>>()));
+    v.push(pc("hash_ops", "begin hperm hmerge hash end", &[1, 2, 3, 4, 5, 6, 7, 8, 9, 10, 11, 12], &[]));
+    {
+        let t = merkle_tree();
+        let r = t.root();
+        let root_tf = [r[3].as_int(), r[2].as_int(), r[1].as_int(), r[0].as_int()];
+        let mut st = vec![t.depth() as u64, 3];
+        st.extend(root_tf);
+        v.push(pc("mtree_get", "begin mtree_get end", &st, &[]));
+        // mtree_verify: [V, d, i, R]
+        let leaf = merkle_leaves()[5];
+        let mut st = vec![leaf[3].as_int(), leaf[2].as_int(), leaf[1].as_int(), leaf[0].as_int(), t.depth() as u64, 5];
+        st.extend(root_tf);
+        v.push(pc("mtree_verify", "begin mtree_verify end", &st, &[]));
+        // mtree_set: [d, i, R, V_new]
+        let mut st = vec![t.depth() as u64, 6];
+        st.extend(root_tf);
+        st.extend([9, 8, 7, 6]);
+        v.push(pc("mtree_set_get", "begin mtree_set dropw push.6 push.3 mtree_get end", &st, &[]));
+    }
+    v.push(pc(
+        "locals",
+        "proc.foo.4 loc_store.0 loc_store.1 loc_load.0 loc_load.1 push.1.2.3.4 loc_storew.2 dropw padw loc_loadw.2 locaddr.3 end \
+         begin push.5 push.6 exec.foo end",
+        &[],
+        &[],
+    ));
+    v.push(pc("sys_ops", "begin clk sdepth add push.3 clk add end", &[], &[]));
+
+    // ---- control flow ------------------------------------------------------------------------------
+    let ite = "begin if.true push.2 push.3 add else push.4 end end";
+    v.push(pc("if_true", ite, &[1], &[]));
+    v.push(pc("if_false", ite, &[0], &[]));
+    let wh = "begin dup neq.0 while.true push.1 sub dup neq.0 end end";
+    for n in 0..=2u64 {
+        v.push(pc(&format!("while_{n}"), wh, &[n], &[]));
+    }
+    v.push(pc("repeat", "begin repeat.5 push.2 mul end end", &[1], &[]));
+    v.push(pc("exec", "proc.foo push.3 add end begin exec.foo exec.foo end", &[1], &[]));
+    v.push(pc("call", "proc.foo push.3 add end begin call.foo end", &[1], &[]));
+    v.push(pc("nested_call", "proc.a push.1 add end proc.b call.a push.2 mul end begin call.b call.a end", &[1], &[]));
+    v.push(ProgCase {
+        kernel: Some(KERNEL.into()),
+        ..pc("syscall", "proc.p syscall.kcaller end begin syscall.kadd call.p syscall.kmem end", &[1, 2, 3], &[])
+    });
+    v.push(pc("dynexec", "proc.foo push.1.2 u32wrapping_add end begin procref.foo dynexec end", &[], &[]));
+    v.push(pc(
+        "dyncall",
+        "proc.foo dropw mem_load.0 assertz add end begin push.5 mem_store.0 procref.foo dyncall end",
+        &[1, 2],
+        &[],
+    ));
+    v.push(pc("long_span_imm", "begin repeat.80 push.1 add end end", &[0], &[]));
+    v.push(pc("long_span_noimm", "begin repeat.100 swap dup.1 drop end end", &[1, 2], &[]));
+    v.push(pc(
+        "nested_flow",
+        "proc.f dup neq.0 while.true push.1 sub dup neq.0 end end begin if.true push.2 exec.f else push.1 call.f end repeat.2 push.1 if.true push.7 else push.8 end drop end end",
+        &[1],
+        &[],
+    ));
+
+    // ---- stack regimes -----------------------------------------------------------------------------
+    v.push(pc("in0", "begin push.1 push.2 add end", &[], &[]));
+    v.push(pc("in16", "begin add end", &s16, &[]));
+    v.push(pc("in17", "begin add end", &s17, &[]));
+    v.push(pc("in20_out18", "begin add mul end", &s20, &[]));
+    v.push(pc("in20_out16", "begin drop drop drop drop end", &s20, &[]));
+    v.push(pc("in16_out20", "begin push.1 push.2 push.3 push.4 end", &s16, &[]));
+    v.push(pc("call_deep", "proc.f add end begin call.f end", &s20, &[]));
+
+    // ---- trace-shape regimes: the deciding component at and around 2^6 and 2^7 -------------------------
+    for target in (60..=66).chain(124..=130) {
+        if let Some(c) = find_regime(0, target) {
+            if !v.iter().any(|x| x.src == c.src && x.stack == c.stack) {
+                v.push(c);
+            }
+        }
+    }
+    // the range-checker table always has an odd number of rows (0 -> 65535 in odd strides, plus the
+    // extra last row), so it can never be exactly 2^k: its tight case is 2^k - 1 (+ 1 random row)
+    for (comp, targets) in [(1, [61usize, 63, 65, 125, 127, 129]), (2, [63, 64, 65, 127, 128, 129])] {
+        for target in targets {
+            if let Some(c) = find_regime(comp, target) {
+                if !v.iter().any(|x| x.src == c.src && x.stack == c.stack) {
+                    v.push(c);
+                }
+            }
+        }
+    }
+    v
+}
+
+/// panic message with a checkout-independent location (scratch worktrees live outside /repo)
+fn norm_panic(msg: &str) -> String {
+    let s = guard::short_panic(msg);
+    if let Some(i) = s.rfind(" @ ") {
+        let loc = &s[i + 3..];
+        for root in ["processor/src/", "air/src/", "prover/src/", "verifier/src/", "core/src/", "assembly/src/", "miden/src/"] {
+            if let Some(j) = loc.find(root) {
+                return format!("{} @ {}", &s[..i], &loc[j..]);
+            }
+        }
+    }
+    s
+}
+
+fn option_sets() -> Vec<(&'static str, ProvingOptions, u32)> {
+    vec![
+        ("blake3_96", ProvingOptions::with_96_bit_security(false), 96),
+        ("blake3_128", ProvingOptions::with_128_bit_security(false), 128),
+        ("rpo_96", ProvingOptions::with_96_bit_security(true), 96),
+        ("rpo_128", ProvingOptions::with_128_bit_security(true), 128),
+    ]
+}
+
+/// the cases that also get the expensive RPO-128 set in the quick tier
+const QUICK_RPO128: [&str; 8] = ["syscall", "in16_out20", "dyncall", "adv_pipe", "u32_div", "regime_main_64", "regime_range_63", "regime_chiplets_64"];
+
+#[derive(Default, Clone)]
+struct Seen {
+    lens: Option<(usize, usize, usize, usize)>,
+    proof_bytes: usize,
+    level: u32,
+    out_depth: usize,
+}
+
+/// checks one (program, option set); failures are reported through ctx.fail. Returns what was seen.
+fn check_one(ctx: &Ctx, c: &ProgCase, opt: &str, verbose: bool) -> Option<Seen> {
+    let (_, options, configured) = option_sets().into_iter().find(|o| o.0 == opt).expect("harness: option set");
+    let case = json!({"name": c.name, "src": c.src, "kernel": c.kernel, "stack": c.stack, "advice": c.advice, "opt": opt});
+    // "shape" = which component decides the padded length and where it sits relative to 2^k; part of
+    // the signature so that a defect tied to one boundary cannot hide a defect at another one
+    let shape = std::cell::RefCell::new(String::from("?"));
+    let fail = |kind: &str, extra: Value, detail: String| {
+        let mut sig = json!({"kind": kind, "shape": *shape.borrow()});
+        if let Some(o) = extra.as_object() {
+            for (k, v) in o {
+                sig[k] = v.clone();
+            }
+        }
+        ctx.fail(sig, format!("{} / {opt}: {detail}", c.name), case.clone());
+    };
+    let program = compile(c);
+    // family requirement: execution succeeds (otherwise the property does not speak about the case).
+    // "Execution" is the VM running the program to completion (`Process::execute`); building the
+    // trace from the finished process is already part of the proving pipeline.
+    {
+        let mut process = processor::Process::new(program.kernel().clone(), stack_inputs(&c.stack), host_from(advice_inputs(c)), ExecutionOptions::default());
+        match guard::catch(|| process.execute(&program).map(|_| ())) {
+            Err(p) => panic!("harness: family program {} panicked in Process::execute: {p}", c.name),
+            Ok(Err(e)) => panic!("harness: family program {} must execute: {e:?}", c.name),
+            Ok(Ok(())) => {}
+        }
+    }
+    let trace = match exec_trace(&program, &c.stack, advice_inputs(c), ExecutionOptions::default()) {
+        Err(p) => {
+            if verbose {
+                println!("Process::execute: ok; processor::execute (trace construction): PANIC {p} (expected: a trace)");
+            }
+            fail("trace_build_panic", json!({"panic": norm_panic(&p)}), guard::short_panic(&p));
+            return None;
+        }
+        Ok(Err(e)) => panic!("harness: family program {} must execute: {e:?}", c.name),
+        Ok(Ok(t)) => t,
+    };
+    let s = trace.trace_len_summary();
+    let lens = (s.main_trace_len(), s.range_trace_len(), s.chiplets_trace_len().trace_len(), s.padded_trace_len());
+    let exec_out = trace.stack_outputs().clone();
+    drop(trace);
+    {
+        let (d, l) = if lens.0 >= lens.1 && lens.0 >= lens.2 { ("main", lens.0) } else if lens.1 >= lens.2 { ("range", lens.1) } else { ("chiplets", lens.2) };
+        let pos = if (l + 1).is_power_of_two() { "2^k-1" } else if l.is_power_of_two() { "2^k" } else { "other" };
+        *shape.borrow_mut() = format!("{d}:{pos}");
+    }
+    if verbose {
+        println!("execute: ok; trace lengths main={} range={} chiplets={} padded={}; outputs {:?} overflow_addrs {:?}", lens.0, lens.1, lens.2, lens.3, exec_out.stack(), exec_out.overflow_addrs());
+    }
+    let si = stack_inputs(&c.stack);
+    let h = host_from(advice_inputs(c));
+    let proved = guard::catch(|| prove(&program, si.clone(), h, options));
+    let (out, proof) = match proved {
+        Err(p) => {
+            if verbose {
+                println!("prove: PANIC {p} (expected: Ok)");
+            }
+            fail("prove_panic", json!({"panic": norm_panic(&p)}), guard::short_panic(&p));
+            return None;
+        }
+        Ok(Err(e)) => {
+            if verbose {
+                println!("prove: Err({e:?}) (expected: Ok)");
+            }
+            fail("prove_failed", json!({"error": err_variant(&format!("{e:?}"))}), format!("{e:?}"));
+            return None;
+        }
+        Ok(Ok(x)) => x,
+    };
+    if verbose {
+        println!("prove: ok, {} proof bytes", proof.to_bytes().len());
+    }
+    if out != exec_out {
+        fail("outputs_differ", json!({}), format!("prove returned {:?}/{:?}, execute {:?}/{:?}", out.stack(), out.overflow_addrs(), exec_out.stack(), exec_out.overflow_addrs()));
+        return None;
+    }
+    let info = || ProgramInfo::new(program.hash(), program.kernel().clone());
+    let level0 = proof.security_level();
+    let v1 = guard::catch(|| verify(info(), si.clone(), exec_out.clone(), proof.clone()));
+    if verbose {
+        println!("verify: {v1:?} (expected: Ok(level >= {configured}))");
+    }
+    let level = match v1 {
+        Err(p) => {
+            fail("verify_panic", json!({"panic": norm_panic(&p)}), guard::short_panic(&p));
+            return None;
+        }
+        Ok(Err(e)) => {
+            fail("verify_rejected", json!({"error": err_variant(&format!("{e:?}"))}), format!("{e:?}; trace lengths {lens:?}"));
+            return None;
+        }
+        Ok(Ok(l)) => l,
+    };
+    if level < configured || level != level0 {
+        fail("low_security_level", json!({}), format!("verify returned {level}, proof.security_level() = {level0}, configured {configured}"));
+    }
+    // round trip
+    let bytes = proof.to_bytes();
+    match guard::catch(|| ExecutionProof::from_bytes(&bytes)) {
+        Err(p) => fail("roundtrip_panic", json!({}), guard::short_panic(&p)),
+        Ok(Err(e)) => fail("roundtrip_from_bytes_failed", json!({}), format!("{e:?}")),
+        Ok(Ok(p2)) => {
+            if p2 != proof || p2.to_bytes() != bytes {
+                fail("roundtrip_not_identical", json!({}), "from_bytes(to_bytes(p)) != p".into());
+            }
+            if p2.security_level() != level0 {
+                fail("roundtrip_security_level", json!({}), format!("{} after round trip, {level0} before", p2.security_level()));
+            }
+            let v2 = guard::catch(|| verify(info(), si.clone(), exec_out.clone(), p2));
+            if verbose {
+                println!("verify after to_bytes/from_bytes: {v2:?} (expected: Ok({level}))");
+            }
+            match v2 {
+                Ok(Ok(l)) if l == level => {}
+                other => fail("roundtrip_verify", json!({}), format!("{other:?} after round trip, Ok({level}) before")),
+            }
+        }
+    }
+    Some(Seen { lens: Some(lens), proof_bytes: bytes.len(), level, out_depth: exec_out.stack().len() })
+}
+
+pub fn run(ctx: &Ctx, replay: Option<&Value>) -> i32 {
+    if let Some(case) = replay {
+        let ints_of = |k: &str| -> Vec<u64> { case[k].as_array().map(|a| a.iter().filter_map(|x| x.as_u64()).collect()).unwrap_or_default() };
+        let c = ProgCase {
+            name: case["name"].as_str().expect("harness: replay case without name").into(),
+            src: case["src"].as_str().expect("src").into(),
+            kernel: case["kernel"].as_str().map(String::from),
+            stack: ints_of("stack"),
+            advice: ints_of("advice"),
+        };
+        let opt = case["opt"].as_str().expect("opt");
+        println!("program {}:\n{}\nstack (top first) {:?} advice {:?} kernel {:?}; option set {opt}", c.name, c.src, c.stack, c.advice, c.kernel);
+        check_one(ctx, &c, opt, true);
+        return ctx.finish("exploration", json!({}), &[]);
+    }
+
+    let tier = ctx.tier;
+    if std::env::var("VERIF_C01_LENS").is_ok() {
+        // development aid: component lengths of the regime families
+        for comp in 0..3 {
+            for m in [0usize, 1, 2] {
+                for n in (1..=200).step_by(if comp == 0 { 7 } else { 1 }) {
+                    println!("comp={comp} n={n} m={m} lens={:?}", lens(&regime_prog(comp, n, m)));
+                }
+            }
+        }
+        for comp in 0..3 {
+            for target in [63usize, 64, 65, 127, 128, 129] {
+                println!("find comp={comp} target={target}: {:?}", find_regime(comp, target).map(|c| (c.name.clone(), lens(&c))));
+            }
+        }
+        return 2;
+    }
+    let t0 = std::time::Instant::now();
+    let family = pcore(tier);
+    let family_s = t0.elapsed().as_secs_f64();
+    let names: BTreeSet<&str> = family.iter().map(|c| c.name.as_str()).collect();
+    assert!(names.len() == family.len(), "harness: duplicate program names in pcore");
+    for must in QUICK_RPO128 {
+        assert!(names.contains(must), "harness: pcore lacks the program {must}");
+    }
+
+    // expensive jobs first so that the pool is not left waiting for one 6 s proof at the end
+    let mut jobs: Vec<(usize, &'static str)> = vec![];
+    for opt in ["rpo_128", "rpo_96", "blake3_128", "blake3_96"] {
+        for (i, c) in family.iter().enumerate() {
+            if opt == "rpo_128" && tier == Tier::Quick && !QUICK_RPO128.contains(&c.name.as_str()) {
+                continue;
+            }
+            jobs.push((i, opt));
+        }
+    }
+    let results: Vec<Option<Seen>> = jobs.par_iter().map(|&(i, opt)| check_one(ctx, &family[i], opt, false)).collect();
+
+    let mut per_opt: BTreeMap<&str, u64> = BTreeMap::new();
+    let mut ok_per_opt: BTreeMap<&str, u64> = BTreeMap::new();
+    let mut lens_seen: BTreeSet<(usize, usize, usize, usize)> = BTreeSet::new();
+    let mut padded: BTreeMap<usize, u64> = BTreeMap::new();
+    let mut dominated: BTreeMap<&str, u64> = BTreeMap::new();
+    let mut levels: BTreeMap<String, u64> = BTreeMap::new();
+    let mut out_depths: BTreeSet<usize> = BTreeSet::new();
+    let mut proof_sizes: (usize, usize) = (usize::MAX, 0);
+    let mut roundtrips = 0u64;
+    for (j, r) in jobs.iter().zip(&results) {
+        *per_opt.entry(j.1).or_insert(0) += 1;
+        if let Some(s) = r {
+            *ok_per_opt.entry(j.1).or_insert(0) += 1;
+            roundtrips += 1;
+            *levels.entry(format!("{}:{}", j.1, s.level)).or_insert(0) += 1;
+            out_depths.insert(s.out_depth);
+            proof_sizes = (proof_sizes.0.min(s.proof_bytes), proof_sizes.1.max(s.proof_bytes));
+            if j.1 == "blake3_96" {
+                if let Some(l) = s.lens {
+                    lens_seen.insert(l);
+                    *padded.entry(l.3).or_insert(0) += 1;
+                    let d = if l.0 >= l.1 && l.0 >= l.2 { "main" } else if l.1 >= l.2 { "range" } else { "chiplets" };
+                    *dominated.entry(d).or_insert(0) += 1;
+                }
+            }
+        }
+    }
+    for c in family.iter().step_by(family.len() / 6 + 1) {
+        ctx.sample(json!({"name": c.name, "src": c.src.chars().take(300).collect::<String>(), "kernel": c.kernel, "stack_top_first": c.stack, "advice": c.advice,
+                          "trace_lengths_main_range_chiplets": lens(c).ok()}));
+    }
+    let exact_pow2: Vec<String> = family
+        .iter()
+        .filter(|c| c.name.starts_with("regime_"))
+        .filter_map(|c| lens(c).ok().map(|l| format!("{}: main={} range={} chiplets={}", c.name, l.0, l.1, l.2)))
+        .collect();
+    let distinct_srcs: BTreeSet<(&str, &Vec<u64>)> = family.iter().map(|c| (c.src.as_str(), &c.stack)).collect();
+    let cov = json!({
+        "evaluations": jobs.len(),
+        "distinct_nontrivial": distinct_srcs.len(),
+        "rule": "case = (program of pcore, option set); distinct_nontrivial counts the distinct (source, stack inputs) pairs of the family, each of which \
+                 executes successfully and is proved and verified under every option set listed for it; all are non-trivial (none is an empty program)",
+        "programs": family.len(),
+        "program_names": family.iter().map(|c| c.name.clone()).collect::<Vec<_>>(),
+        "option_sets": per_opt,
+        "proved_verified_and_round_tripped": ok_per_opt,
+        "round_trips": roundtrips,
+        "security_levels_returned": levels,
+        "trace_lengths_seen_main_range_chiplets_padded": lens_seen.iter().collect::<Vec<_>>(),
+        "padded_lengths": padded,
+        "deciding_component": dominated,
+        "regime_programs": exact_pow2,
+        "output_depths_seen": out_depths,
+        "proof_bytes_min_max": [proof_sizes.0, proof_sizes.1],
+        "quick_rpo128_subset": QUICK_RPO128,
+        "exhaustive": true,
+        "bounds": "fixed finite family x option sets (quick: all x blake3_96, blake3_128, rpo_96 and 8 programs x rpo_128; thorough: all x all four); traces up to 256 rows",
+        "family_construction_wall_s": family_s,
+        "profile_note": "run with VERIF_PROFILE=checked to have winterfell validate the whole trace against the AIR inside prove (debug assertions)",
+    });
+    ctx.finish("exploration", cov, &[
+        "only programs whose execution succeeded are proved; a family program that does not assemble or execute is a machinery failure (exit 2)",
+        "completeness for programs outside the family and for traces longer than 2^8 rows is not covered",
+        "proving randomness (trace random row seeded by the program hash) does not influence acceptance",
+    ])
 }
